@@ -213,11 +213,14 @@ def passDgram (o : C29.Output) : QOut :=
   | .hook h => .hook none h
   | o => .dgram o
 
-def applyDgramEffects (m : Mux σ) (outs : List C29.Output) : Mux σ :=
-  outs.foldl (fun m o => match o with
-    | .close .client half => { m with client := C29.applyClose m.client half }
-    | .close .server half => { m with server := C29.applyClose m.server half }
-    | _ => m) m
+/-- `server.py` executes a `CloseConnection` on one of the two QUIC connections -/
+def dgramEffect (m : Mux σ) (o : C29.Output) : Mux σ :=
+  match o with
+  | .close .client half => { m with client := C29.applyClose m.client half }
+  | .close .server half => { m with server := C29.applyClose m.server half }
+  | _ => m
+
+def applyDgramEffects (m : Mux σ) (outs : List C29.Output) : Mux σ := outs.foldl dgramEffect m
 
 def dgramEvent (ops : ChildOps σ) (m : Mux σ) (i : C29.Input) (drop : C29.Output → Bool) : Mux σ × List QOut :=
   let r := ops.step m.dgram m.client m.server i
@@ -261,6 +264,13 @@ def fanOut (ops : ChildOps σ) (side : Side) : List (Stream σ) → Next → Boo
       let r := fanOut ops side rest ts.next ts.halt
       (ts.s :: r.1, r.2.1, ts.out.filter keepOnConnClose ++ r.2.2.1, r.2.2.2)
 
+/-- `QuicConnectionClosed`, first part: the state of the closed connection (set by the QUIC layer underneath),
+    `CloseQuicConnection` for the other side if that is still connected, else "be done" -/
+def connClosedPre (m : Mux σ) (fc : Bool) (code : Nat) : Mux σ × List QOut :=
+  let m := if fc then { m with client := .shut } else { m with server := .shut }
+  let other := if fc then m.server else m.client
+  if other.canRead && other.canWrite then (m, [.closeQuic (!fc) code]) else ({ m with done := true }, [])
+
 def step (ops : ChildOps σ) (m : Mux σ) (i : QIn) : Mux σ × List QOut :=
   if m.done then (m, []) else
   match i with
@@ -286,17 +296,12 @@ def step (ops : ChildOps σ) (m : Mux σ) (i : QIn) : Mux σ × List QOut :=
       { ts' with out := ts.out ++ ts'.out.map (resetMap (ts'.s.idOf (sideOf fc).other) code) }
   | .connClosed fc code =>
     let side := sideOf fc
-    let m := if fc then { m with client := .shut } else { m with server := .shut }
-    let other := if fc then m.server else m.client
-    let otherOpen := other.canRead && other.canWrite
-    let pre : List QOut := if otherOpen then [.closeQuic (!fc) code] else []
-    let m := if otherOpen then m else { m with done := true }
+    let p := connClosedPre m fc code
     -- "always forward to the datagram layer and swallow CloseConnection commands" (for the other connection)
-    let r := dgramEvent ops m (.closed side true)
+    let r := dgramEvent ops p.1 (.closed side true)
       (fun o => match o with | .close c _ => c == side.other | _ => false)
-    let m := r.1
-    let f := fanOut ops side m.streams m.next false
-    ({ m with streams := f.1, next := f.2.1 }, pre ++ r.2 ++ f.2.2.1)
+    let f := fanOut ops side r.1.streams r.1.next false
+    ({ r.1 with streams := f.1, next := f.2.1 }, p.2 ++ r.2 ++ f.2.2.1)
 
 def run (ops : ChildOps σ) (m : Mux σ) (is : List QIn) : Mux σ × List QOut :=
   is.foldl (fun (acc : Mux σ × List QOut) i => let r := step ops acc.1 i; (r.1, acc.2 ++ r.2)) (m, [])
